@@ -13,7 +13,9 @@
 (*                 Read  r1 (lock, take from buffer) / r2 (<-b.ch),        *)
 (*                 CloseWithError (one critical section)                   *)
 (*   io.Pipe       Write w1 (offer) / w2 (wait until consumed or closed),  *)
-(*                 Read (take what is offered, or EOF), Close               *)
+(*                 Read (take what is offered, or EOF), Close; an empty     *)
+(*                 Write is offered like any other (off) and is taken by a  *)
+(*                 Read that returns (0, nil), which io.ReadFull ignores    *)
 (*   Close         x1 closeMu/closing; x2 dummy writer; x3 readerMu +      *)
 (*                 close(readers); x4 w.w.Close()                          *)
 (*   ReadChunk     c0 <-r.readers; key read; body io.ReadFull loop         *)
@@ -45,7 +47,7 @@ VARIABLES
     ch, chClosed,   \* r.readers / w.readers: queue of pipe ids, closed flag
     closing,        \* w.closing closed
     rmu,            \* readerMu holder: "none" | "P" | "C"
-    pipes,          \* pipe id -> [buf, err, rerr, tok, sig]
+    pipes,          \* pipe id -> [buf, err, rerr, tok, sig, off]
     ww,             \* w.w (pipe id, 0 = nil)
     pc,             \* [P, C] -> label
     pi,             \* producer: index of the current op
@@ -73,7 +75,10 @@ Scripts == <<
     <<Y, N, W(2), N, W(2), Y, C>>,                  \* 4: yields first and last, message ending on a chunk boundary
     <<N, W(1), N, W(1), N, W(1), C>>,               \* 5: three messages
     <<C>>,                                          \* 6: nothing
-    <<N, W(2), W(2), W(1), C>>                      \* 7: one message, three chunks
+    <<N, W(2), W(2), W(1), C>>,                     \* 7: one message, three chunks
+    <<N, W(0), W(2), C>>,                           \* 8: an empty write before the first byte
+    <<N, W(1), W(0), W(2), N, W(0), W(1), W(0), C>>, \* 9: empty writes between the parts, before and after a value
+    <<N, W(2), W(0), Y, N, W(1), C>>                \* 10: an empty write after a full chunk, then a yield
   >>
 K == cfg.K
 Script == Scripts[cfg.sid]
@@ -85,7 +90,7 @@ Buffered == K > 0
 NPipesOf(sc) == Cardinality({j \in 1..Len(sc) : sc[j].op \in {"next", "yield"}})
 NPipes == NPipesOf(Script)
 PipeIds == 1..5                     \* at most 4 pipes per script + the dummy writer of Close
-NewPipe == [buf |-> 0, err |-> "none", rerr |-> FALSE, tok |-> FALSE, sig |-> FALSE]
+NewPipe == [buf |-> 0, err |-> "none", rerr |-> FALSE, tok |-> FALSE, sig |-> FALSE, off |-> FALSE]
 
 Init ==
     /\ cfg \in {c \in [K : Ks, sid : ScriptIds, cancel : Cancels, late : Lates, stop : Stops] :
@@ -203,15 +208,15 @@ PW1 ==
             /\ UNCHANGED panic
        ELSE /\ IF pipes[ww].err # "none" \/ pipes[ww].rerr
                THEN OpDone(TRUE) /\ UNCHANGED pipes
-               ELSE pipes' = [pipes EXCEPT ![ww].buf = wn] /\ Goto("P", "w2") /\ UNCHANGED <<pi, perrs>>
+               ELSE pipes' = [pipes EXCEPT ![ww].buf = wn, ![ww].off = TRUE] /\ Goto("P", "w2") /\ UNCHANGED <<pi, perrs>>
             /\ UNCHANGED panic
     /\ UNCHANGED <<cfg, ch, chClosed, closing, rmu, ww, pnew, wn, cur, got, rfor, recv, nid>>
 
 PW2 ==  \* io.Pipe: wait until the reader took everything, or either end closed
     /\ pc["P"] = "w2"
-    /\ \/ pipes[ww].buf = 0 /\ OpDone(FALSE) /\ UNCHANGED pipes
-       \/ /\ pipes[ww].buf > 0 /\ (pipes[ww].rerr \/ pipes[ww].err # "none")
-          /\ pipes' = [pipes EXCEPT ![ww].buf = 0]
+    /\ \/ ~pipes[ww].off /\ OpDone(FALSE) /\ UNCHANGED pipes
+       \/ /\ pipes[ww].off /\ (pipes[ww].rerr \/ pipes[ww].err # "none")
+          /\ pipes' = [pipes EXCEPT ![ww].buf = 0, ![ww].off = FALSE]
           /\ OpDone(TRUE)
     /\ UNCHANGED <<cfg, ch, chClosed, closing, rmu, ww, pnew, wn, cur, got, rfor, recv, panic, nid>>
 
@@ -310,10 +315,11 @@ CR1 ==
                  AfterRead(k, FALSE, [pipes EXCEPT ![cur].buf = @ - k])
             ELSE Goto("C", "r2") /\ UNCHANGED <<pipes, cur, got, recv>>
        ELSE \* io.Pipe: take what the writer offers, or see the close
-            \/ /\ pipes[cur].buf > 0
+            \* (an empty write is taken with k = 0: Read returns (0, nil) and io.ReadFull reads again)
+            \/ /\ pipes[cur].off
                /\ LET k == IF pipes[cur].buf < Need - got THEN pipes[cur].buf ELSE Need - got IN
-                  AfterRead(k, FALSE, [pipes EXCEPT ![cur].buf = @ - k])
-            \/ /\ pipes[cur].buf = 0 /\ pipes[cur].err # "none"
+                  AfterRead(k, FALSE, [pipes EXCEPT ![cur].buf = @ - k, ![cur].off = (pipes[cur].buf - k > 0)])
+            \/ /\ ~pipes[cur].off /\ pipes[cur].err # "none"
                /\ AfterRead(0, TRUE, pipes)
     /\ UNCHANGED <<cfg, ch, chClosed, closing, rmu, ww, pi, pnew, wn, perrs, rfor, panic, nid>>
 
